@@ -12,6 +12,9 @@ Definition text := list byte.
 Definition bs (s : String.string) : text :=
   List.map Ascii.N_of_ascii (String.list_ascii_of_string s).
 
+(* a byte-string constant evaluated once (so that extracted code contains no Coq strings) *)
+Notation "'bslit' s" := (ltac:(let v := eval vm_compute in (bs s%string) in exact v)) (at level 10, s at level 9, only parsing).
+
 Fixpoint text_eqb (a b : text) : bool :=
   match a, b with
   | [], [] => true
